@@ -1,10 +1,9 @@
 #!/usr/bin/env python3
-"""Bite tests: apply one realistic single edit to /repo's working tree, run the quick check(s) that should catch it,
-restore the tree.  usage: scripts/mutate.py [name ...] | --list | --all
+"""Bite tests: apply one realistic single edit to a scratch copy of /repo/include (under /tmp, removed afterwards), run the quick
+check(s) that should catch it from a scratch copy of /verif (VERIF_REPO points the monitors at the scratch tree).  usage: scripts/mutate.py [name ...] | --list | --all
 The edits are textual (old -> new, must match exactly once).  Nothing is committed; the tree is restored even on error."""
 import subprocess, sys, os, re, json, time
 
-R = '/repo/include/manif/'
 M = [
     # name, file, old, new, properties expected to fire
     ('c01-sgal3-compose-drop-tv', 'impl/sgal3/SGal3_base.h', 'rotation() * m_sgal3.translation() + m_sgal3.t() * linearVelocity() + translation(),', 'rotation() * m_sgal3.translation() + translation(),', ['C01']),
@@ -23,7 +22,43 @@ M = [
     ('c05-se2-exp-J-third-col-sign', 'impl/se2/SE2Tangent_base.h', '      (*J_m_t)(0,2) = (x()*(theta - sin_theta) - y()*one_minus_cos_theta)/theta_sq;', '      (*J_m_t)(0,2) = (x()*(theta - sin_theta) + y()*one_minus_cos_theta)/theta_sq;', ['C05', 'C06']),
     ('c06-so3-ljacinv-threshold', 'impl/so3/SO3Tangent_base.h', '  if (theta_sq <= Constants<Scalar>::eps)\n    return Jacobian::Identity() - Scalar(0.5) * W;', '  if (theta_sq <= Scalar(1e-4))\n    return Jacobian::Identity() - Scalar(0.5) * W;', ['C06', 'C05']),
     ('c06-sgal3-N2-const', 'impl/sgal3/SGal3Tangent_base.h', 'cC = Scalar(1. / 60.)  - Scalar(1. / 560.)  * theta_sq;', 'cC = Scalar(1. / 10.)  - Scalar(1. / 560.)  * theta_sq;', ['C06']),
+    ('c08-so3-no-renorm', 'impl/so3/SO3_base.h', '  if (abs(ret_sqnorm-Scalar(1)) > Constants<Scalar>::eps)\n  {\n    ret_q.coeffs() *= approxSqrtInv(ret_sqnorm);', '  if (false && abs(ret_sqnorm-Scalar(1)) > Constants<Scalar>::eps)\n  {\n    ret_q.coeffs() *= approxSqrtInv(ret_sqnorm);', ['C08']),
+    ('c08-se2-renorm-threshold-x100', 'impl/se2/SE2_base.h', '  if (abs(ret_sqnorm-Scalar(1)) > Constants<Scalar>::eps)', '  if (abs(ret_sqnorm-Scalar(1)) > Scalar(100)*Constants<Scalar>::eps)', ['C08']),
+    ('c14-lazy-static', 'impl/so2/SO2Tangent_base.h', '  static const Jacobian Jr = Jacobian::Constant(Scalar(1));\n  return Jr;', '  static Jacobian Jr; static bool init = false; if (!init) { Jr = Jacobian::Constant(Scalar(1)); init = true; }\n  return Jr;', ['C14']),
+    ('c14-mutable-cache-in-adj', 'impl/so3/SO3_base.h', '  return rotation();\n}\n\n// SO3 specific', '  static Jacobian cache; cache = rotation(); return cache;\n}\n\n// SO3 specific', ['C14']),
+    ('c15-cubic-swap', 'algorithms/interpolation.h', '    const auto l = ma.rplus(tab*h01).rplus(ta*h10);\n    const auto r = mb.rplus(tab*(-h00)).rplus(tb*h11);', '    const auto l = ma.rplus(tab*h00).rplus(ta*h10);\n    const auto r = mb.rplus(tab*(-h01)).rplus(tb*h11);', ['C15']),
+    ('c15-slerp-lplus', 'algorithms/interpolation.h', '    mc = ma.rplus( mb.rminus(ma) * t );', '    mc = ma.lplus( mb.rminus(ma) * t );', ['C15']),
+    ('c15-phi-coeff', 'algorithms/interpolation.h', 'degree == 2 ? (T(10.) *t3 - T(15.) *t4 + T(6.)  *t5)', 'degree == 2 ? (T(10.) *t3 - T(15.) *t4 + T(7.)  *t5)', ['C15']),
+    ('c15-smooth-range-check', 'algorithms/interpolation.h', '  MANIF_CHECK(interp_factor >= Scalar(0) && interp_factor <= Scalar(1),\n              "s must be be in [0, 1].");\n\n  const auto phi', '  MANIF_CHECK(interp_factor >= Scalar(0) && interp_factor <= Scalar(2),\n              "s must be be in [0, 1].");\n\n  const auto phi', ['C15']),
+    ('c16-biinvariant-no-weight', 'algorithms/average.h', '    ts *= w; // doing the common product by 1/N just once\n\n    //////////////\n    // Stopping criterion is from (b)', '    //////////////\n    // Stopping criterion is from (b)', ['C16']),
+    ('c16-biinvariant-early-stop', 'algorithms/average.h', '    if (ts.coeffs().squaredNorm() < eps)\n      break;\n\n    avg += ts;\n\n    //////////////\n    // Stopping criterion is from (a)', '    if (ts.coeffs().squaredNorm() < Scalar(1e-4))\n      break;\n\n    avg += ts;\n\n    //////////////\n    // Stopping criterion is from (a)', ['C16']),
+    ('c16-frechet-left-uses-lminus', 'algorithms/average.h', '      tmp = (*it) - avg_0; // Log( Avg^-1 . Xi )', '      tmp = it->lminus(avg_0); // Log( Avg^-1 . Xi )', ['C16']),
+    ('c17-window-stride', 'algorithms/decasteljau.h', '&trajectory[t*(degree-1)+n]', '&trajectory[t*degree+n]', ['C17']),
+    ('c17-wrap-loop-le', 'algorithms/decasteljau.h', 'for (unsigned int p=0; p<degree-left_over-1; ++p)', 'for (unsigned int p=0; p<=degree-left_over-1; ++p)', ['C17']),
+    ('c17-segment-count', 'algorithms/decasteljau.h', 'std::floor(double(trajectory.size()-degree)/double(degree-1))+1', 'std::floor(double(trajectory.size()-degree)/double(degree))+1', ['C17']),
+    ('c18-isapprox-lminus', 'impl/lie_group_base.h', '  return rminus(m).isApprox(Tangent::Zero(), eps);', '  return lminus(m).isApprox(Tangent::Zero(), eps);', ['C18']),
+    ('c18-isapprox-ignores-eps', 'impl/lie_group_base.h', '  return rminus(m).isApprox(Tangent::Zero(), eps);', '  return rminus(m).isApprox(Tangent::Zero());', ['C18']),
+    ('c19-sgal3-smalladj-matrix3d', 'impl/sgal3/SGal3Tangent_base.h', '-t() * Eigen::Matrix<Scalar, 3, 3>::Identity();', '-t() * Eigen::Matrix3d::Identity();', ['C19']),
+    ('c19-functions-typo', 'functions.h', '  lie_group.setIdentity();', '  lie_group.identity();', ['C19']),
+    ('c07-se23-generators-swapped', 'impl/se_2_3/SE_2_3Tangent_base.h', None, None, ['C07']),
+    ('c07-se2-innerweights', 'impl/se2/SE2Tangent_base.h', 'Scalar(0), Scalar(0), Scalar(2) ).finished()', 'Scalar(0), Scalar(0), Scalar(1) ).finished()', ['C07']),
+    ('c07-bundle-generator-index-le', 'impl/bundle/BundleTangent_base.h', '      i < BundleTangentBase<Derived>::DoF,', '      i <= BundleTangentBase<Derived>::DoF,', ['C07']),
 ]
+M = [m for m in M if m[2] is not None]
+
+SCR_REPO = '/tmp/manif-mut-repo'
+SCR_VERIF = '/tmp/manif-mut-verif'
+R = SCR_REPO + '/include/manif/'
+
+
+def setup():
+    sh('rm -rf %s %s; mkdir -p %s %s' % (SCR_REPO, SCR_VERIF, SCR_REPO, SCR_VERIF))
+    sh('cp -r /repo/include %s/ && mkdir -p %s/external && cp -r /repo/external/tl %s/external/' % (SCR_REPO, SCR_REPO, SCR_REPO))
+    sh('rsync -a --exclude .cache --exclude .git --exclude replays /verif/ %s/' % SCR_VERIF)
+
+
+def teardown():
+    sh('rm -rf %s %s' % (SCR_REPO, SCR_VERIF))
 
 
 def sh(cmd):
@@ -44,7 +79,7 @@ def run(name):
         open(path, 'w').write(src.replace(old, new))
         for p in props:
             t0 = time.time()
-            r = sh('python3 /verif/check.py %s --tier quick' % p)
+            r = sh('VERIF_REPO=%s python3 %s/check.py %s --tier quick' % (SCR_REPO, SCR_VERIF, p))
             nv = len(re.findall(r'^VIOLATION', r.stdout, re.M))
             res[p] = {'rc': r.returncode, 'violations': nv, 'first': (re.findall(r'^VIOLATION.*', r.stdout, re.M) or [''])[0][:200], 's': round(time.time() - t0)}
             print('%-34s %s rc=%d violation-lines=%d (%ds) %s' % (name, p, r.returncode, nv, time.time() - t0, res[p]['first'][60:200]))
@@ -56,11 +91,16 @@ def run(name):
 
 if __name__ == '__main__':
     if '--list' in sys.argv:
-        for m in M: print(m[0], m[4]); sys.exit(0)
+        for m in M: print(m[0], m[4])
+        sys.exit(0)
     names = [m[0] for m in M] if '--all' in sys.argv else sys.argv[1:]
     out = {}
-    for n in names:
-        out[n] = run(n)
-    st = sh('git -C /repo status --short -- include').stdout.strip()
-    if st: print('WARNING: /repo/include not clean:\n' + st)
+    setup()
+    try:
+        for n in names:
+            out[n] = run(n)
+            sys.stdout.flush()
+    finally:
+        if '--keep' not in sys.argv: teardown()
+    os.makedirs('/verif/.cache', exist_ok=True)
     json.dump(out, open('/verif/.cache/mutants_last.json', 'w'), indent=1)
